@@ -79,13 +79,78 @@ theorem merge_order_is_function_of_name_set {α} (name : α → List Char) (l1 l
 
 /-- **merge_preserves_records**: `merge_files` never raises, and the merged file is a permutation of the
     concatenation of the per-chromosome files: every record of every part appears exactly as often as in the parts
-    (gene / transcript records that are unique per chromosome file and carry chromosome-specific ids stay unique) -/
+    (gene / transcript records that are unique per chromosome file and carry chromosome-specific ids stay unique).
+    No hypothesis on the records: since the repair `fix_merge_header` a record that starts with `#` (contig `#c1`) is a
+    record like any other (`merge_files_no_header`; the old behaviour: `merge_hash_witness`) -/
 theorem merge_preserves_records {α} (files : List (List Char × List α)) :
     ∃ r, mergeFiles files = some r ∧ r.Perm (files.flatMap (·.2)) := by
   obtain ⟨s, hs, hperm, _⟩ := sort_natural_total_sorted (fun f : List Char × List α => f.1) files
   refine ⟨s.flatMap (·.2), ?_, hperm.flatMap_right _⟩
   unfold mergeFiles
   rw [hs]; rfl
+
+/-- the GTF merges skip no line: `header_lines = 0` is plain concatenation -/
+theorem merge_files_no_header {α} (files : List (List Char × List α)) : mergeFilesH 0 files = mergeFiles files := by
+  simp [mergeFilesH, mergeFiles]
+
+/-- **merge_preserves_records_with_header**: a merge whose parts carry `k` header lines each (read_assignments.tsv,
+    corrected_reads.bed) keeps exactly the records: no hypothesis on what a record looks like -/
+theorem merge_preserves_records_with_header {α} (k : Nat) (files : List (List Char × (List α × List α)))
+    (hk : ∀ f ∈ files, f.2.1.length = k) :
+    ∃ r, mergeFilesH k (files.map (fun f => (f.1, f.2.1 ++ f.2.2))) = some r ∧
+      r.Perm (files.flatMap (fun f => f.2.2)) := by
+  obtain ⟨s, hs, hperm, _⟩ := sort_natural_total_sorted (fun f : List Char × List α => f.1)
+    (files.map (fun f => (f.1, f.2.1 ++ f.2.2)))
+  refine ⟨s.flatMap (fun f => f.2.drop k), ?_, ?_⟩
+  · unfold mergeFilesH; rw [hs]; rfl
+  · refine (hperm.flatMap_right _).trans ?_
+    rw [List.flatMap_map]
+    have : ∀ f ∈ files, (f.2.1 ++ f.2.2).drop k = f.2.2 := by
+      intro f hf; rw [← hk f hf, List.drop_left]
+    clear hs hperm hk
+    induction files with
+    | nil => exact List.Perm.refl _
+    | cons f fs ih =>
+      simp only [List.flatMap_cons, this f (by simp)]
+      exact List.Perm.append_left _ (ih (fun g hg => this g (by simp [hg])))
+
+/-- a contig named `#c1`: three GTF records (as record ids 1, 2, 3; `isHashRec` marks the records whose line starts with
+    `#`, i.e. all records of that contig) and one record of contig `c2` -/
+def isHashRec (r : Nat) : Bool := r ≤ 3
+def hashFiles : List (List Char × List Nat) := [("S_#c1.gtf".toList, [1, 2, 3]), ("S_c2.gtf".toList, [4])]
+
+/-- **merge_hash_witness**: under the header test by content of the unrepaired tree every record of the contig `#c1`
+    is lost in the merge (`merge_preserves_records` was false of that code; audit probe C03_hash_chrom.py, replayed on
+    the real code by harness/props/C03.py `oracle_merge`); the repaired merge keeps all four -/
+theorem merge_hash_witness :
+    mergeFilesOrig isHashRec hashFiles = some [4] ∧ mergeFiles hashFiles = some [1, 2, 3, 4] := by
+  decide +kernel
+
+/-- **merge_preserves_records_orig_partial**: what held of the unrepaired code - records are preserved when no record
+    line starts with `#` (the exact excluded class) -/
+theorem merge_preserves_records_orig_partial {α} (isHdr : α → Bool) (files : List (List Char × List α))
+    (h : ∀ f ∈ files, ∀ r ∈ f.2, isHdr r = false) :
+    mergeFilesOrig isHdr files = mergeFiles files := by
+  obtain ⟨s, hs, hperm, hsorted⟩ := sort_natural_total_sorted (fun f : List Char × List α => f.1) files
+  unfold mergeFilesOrig mergeFiles
+  rw [hs]
+  simp only [Option.map_some]
+  congr 1
+  have hs' : ∀ f ∈ s, ∀ r ∈ f.2, isHdr r = false := fun f hf => h f (hperm.mem_iff.mp hf)
+  clear hs hperm hsorted
+  induction s with
+  | nil => rfl
+  | cons f fs ih =>
+    simp only [List.flatMap_cons]
+    rw [ih (fun g hg => hs' g (by simp [hg]))]
+    congr 1
+    cases hr : f.2 with
+    | nil => rfl
+    | cons r rs =>
+      have : isHdr r = false := hs' f (by simp) r (by simp [hr])
+      simp [this]
+
+example : ∀ f ∈ [("S_c2.gtf".toList, [4, 5])], ∀ r ∈ f.2, isHashRec r = false := by decide
 
 /-- the records of one chromosome stay contiguous and in their order: the merged file is the concatenation of the
     parts in sorted order -/
